@@ -10,6 +10,14 @@
 // A second real run with a visitor that SKIPS random nodes checks that skipping leaves the type info of all later
 // nodes unchanged (VisitWithTypeInfo must leave the frame of a skipped node).
 //
+// Since Props/C14TypeInfo (theorems typeinfo_eq_context, typeinfo_eq_context_under_skips, stacks_balanced) the driver also
+// runs M = lean/GqlModel/TypeInfoStacks.lean, the STACK MACHINE as coded (four stacks, three registers, Enter/Leave case
+// by case, driven like VisitWithTypeInfo incl. Leave on SKIP). Compared in addition: the SEQUENCE of rows the real
+// visitor is shown == M's rows exactly, without skips and with the very nodes the second real walk skipped; at every
+// real Leave the getters still show what they showed at Enter; after the real walk all getters are nil again; the
+// premises of the theorems (argument names unique per definition, executable document) hold on the case.
+// real == M is the correspondence; M == S is then the theorem.
+//
 // Documents: gen.ValidDoc and the same IR after 1-3 typed mutations (unknown fields / types / directives, wrong
 // literals, variables and wrong-kind literals at NESTED positions of list / input-object literals, several faults in
 // one literal …) over gen.SchemaGen schemas with custom directives, disjoint abstract types and list-shaped arguments.
@@ -82,15 +90,42 @@ func num(x interface{}) int {
 	return n
 }
 
+type realRun struct {
+	out        map[string]string
+	order      []string
+	seq        []string // canonical rows in visiting order
+	skipped    [][]interface{}
+	leaveDiffs []string
+	finalState string // the six getters after the walk ("" if all nil)
+	panicked   string
+}
+
 // runReal walks the document with the real TypeInfo; skip(kind, start) tells the inner visitor to SKIP that node.
-func runReal(schema *graphql.Schema, doc *ast.Document, skip func(kind string, start int) bool) (out map[string]string, order []string, panicked string) {
-	out = map[string]string{}
+func runReal(schema *graphql.Schema, doc *ast.Document, skip func(kind string, start int) bool) (res realRun) {
+	res.out = map[string]string{}
 	defer func() {
 		if r := recover(); r != nil {
-			panicked = fmt.Sprint(r)
+			res.panicked = fmt.Sprint(r)
 		}
 	}()
 	ti := graphql.NewTypeInfo(&graphql.TypeInfoConfig{Schema: schema})
+	getters := func() []interface{} {
+		fd, dir, arg, parent := "nil", "nil", "nil", "nil"
+		if d := ti.FieldDef(); d != nil {
+			fd = d.Name
+		}
+		if d := ti.Directive(); d != nil {
+			dir = d.Name
+		}
+		if a := ti.Argument(); a != nil {
+			arg = a.Name()
+		}
+		if pt := ti.ParentType(); !isNil(pt) {
+			parent = pt.Name()
+		}
+		return []interface{}{renderType(ti.Type()), parent, renderType(ti.InputType()), fd, dir, arg}
+	}
+	var open []string // rows of the entered, not yet left, observed nodes
 	inner := &visitor.VisitorOptions{
 		Enter: func(p visitor.VisitFuncParams) (string, interface{}) {
 			n, ok := p.Node.(ast.Node)
@@ -99,35 +134,77 @@ func runReal(schema *graphql.Schema, doc *ast.Document, skip func(kind string, s
 			}
 			k := n.GetKind()
 			if observed[k] && n.GetLoc() != nil {
-				fd, dir, arg, parent := "nil", "nil", "nil", "nil"
-				if d := ti.FieldDef(); d != nil {
-					fd = d.Name
-				}
-				if d := ti.Directive(); d != nil {
-					dir = d.Name
-				}
-				if a := ti.Argument(); a != nil {
-					arg = a.Name()
-				}
-				if pt := ti.ParentType(); !isNil(pt) {
-					parent = pt.Name()
-				}
-				r := rec{k, n.GetLoc().Start, n.GetLoc().End, renderType(ti.Type()), parent, renderType(ti.InputType()), fd, dir, arg}
+				r := append(rec{k, n.GetLoc().Start, n.GetLoc().End}, getters()...)
 				kk := key(r)
-				if _, dup := out[kk]; dup {
+				if _, dup := res.out[kk]; dup {
 					kk += "#dup"
 				}
-				out[kk] = hx.Canon(r)
-				order = append(order, kk)
+				row := hx.Canon(r)
+				res.out[kk] = row
+				res.order = append(res.order, kk)
+				res.seq = append(res.seq, row)
 				if skip != nil && skip(k, n.GetLoc().Start) {
+					res.skipped = append(res.skipped, []interface{}{k, n.GetLoc().Start})
 					return visitor.ActionSkip, nil
+				}
+				open = append(open, row)
+			}
+			return visitor.ActionNoChange, nil
+		},
+		Leave: func(p visitor.VisitFuncParams) (string, interface{}) {
+			n, ok := p.Node.(ast.Node)
+			if !ok || isNil(n) {
+				return visitor.ActionNoChange, nil
+			}
+			k := n.GetKind()
+			if observed[k] && n.GetLoc() != nil {
+				row := hx.Canon(append(rec{k, n.GetLoc().Start, n.GetLoc().End}, getters()...))
+				if len(open) == 0 {
+					res.leaveDiffs = append(res.leaveDiffs, "leave without enter: "+row)
+				} else {
+					if open[len(open)-1] != row {
+						res.leaveDiffs = append(res.leaveDiffs, "at leave "+row+" at enter "+open[len(open)-1])
+					}
+					open = open[:len(open)-1]
 				}
 			}
 			return visitor.ActionNoChange, nil
 		},
 	}
 	visitor.Visit(doc, visitor.VisitWithTypeInfo(ti, inner), nil)
-	return out, order, ""
+	if fs := hx.Canon(getters()); fs != hx.Canon([]interface{}{"nil", "nil", "nil", "nil", "nil", "nil"}) {
+		res.finalState = fs
+	}
+	return res
+}
+
+// modelSeq: M's rows of the observed kinds, canonicalised like the real ones
+func modelSeq(rows []rec) []string {
+	var out []string
+	for _, r := range rows {
+		if len(r) < 3 || !observed[fmt.Sprint(r[0])] {
+			continue
+		}
+		r[1], r[2] = num(r[1]), num(r[2])
+		out = append(out, hx.Canon(r))
+	}
+	return out
+}
+
+func seqDiff(what string, real, model []string) string {
+	n := len(real)
+	if len(model) < n {
+		n = len(model)
+	}
+	for i := 0; i < n; i++ {
+		if real[i] != model[i] {
+			return fmt.Sprintf("%s: row %d real %s M %s", what, i, real[i], model[i])
+		}
+	}
+	if len(real) != len(model) {
+		return fmt.Sprintf("%s: real shows %d rows, M %d", what, len(real), len(model))
+	}
+	return ""
 }
 
 type caseT struct {
@@ -168,16 +245,52 @@ func main() {
 			return
 		}
 		var problems []string
-		real, order, pan := runReal(&b.Schema, doc, nil)
-		if pan != "" {
-			problems = append(problems, "real walk panicked: "+pan)
+		rr := runReal(&b.Schema, doc, nil)
+		real, order := rr.out, rr.order
+		if rr.panicked != "" {
+			problems = append(problems, "real walk panicked: "+rr.panicked)
 		}
+		if len(rr.leaveDiffs) > 0 {
+			problems = append(problems, "type info at Leave differs from Enter: "+rr.leaveDiffs[0])
+		}
+		if rr.finalState != "" && rr.panicked == "" {
+			problems = append(problems, "after the walk the TypeInfo is not empty again: "+rr.finalState)
+		}
+		// the second real walk skips random nodes (decided here, then handed to M)
+		sr := hx.NewRng(c.SkipSeed)
+		decided := map[string]bool{}
+		skip := func(kind string, start int) bool {
+			k := fmt.Sprintf("%s@%d", kind, start)
+			if _, ok := decided[k]; !ok {
+				decided[k] = kind != "OperationDefinition" && kind != "FragmentDefinition" && sr.Chance(1, 6)
+			}
+			return decided[k]
+		}
+		rs := runReal(&b.Schema, doc, skip)
 		var resp struct {
-			Recs []rec `json:"recs"`
+			Recs       []rec `json:"recs"`
+			MRecs      []rec `json:"mrecs"`
+			MRecsSkip  []rec `json:"mrecsSkip"`
+			ArgsUnique bool  `json:"argsUnique"`
+			Executable bool  `json:"executable"`
 		}
-		if err := drv.Ask(map[string]interface{}{"typeinfo": true, "schema": c.Schema, "doc": astjson.Document(doc)}, &resp); err != nil {
+		req := map[string]interface{}{"typeinfo": true, "schema": c.Schema, "doc": astjson.Document(doc)}
+		if len(rs.skipped) > 0 {
+			req["skip"] = rs.skipped
+		}
+		if err := drv.Ask(req, &resp); err != nil {
 			run.CheckError("driver: " + err.Error())
 			return
+		}
+		if resp.ArgsUnique && resp.Executable {
+			run.Tag("theorem-premises-hold")
+		} else {
+			run.Tag(fmt.Sprintf("theorem-premises-fail:argsUnique=%v,executable=%v", resp.ArgsUnique, resp.Executable))
+		}
+		if rr.panicked == "" {
+			if d := seqDiff("stack machine M differs from the real TypeInfo", rr.seq, modelSeq(resp.MRecs)); d != "" {
+				problems = append(problems, d)
+			}
 		}
 		model := map[string]string{}
 		typed := false
@@ -216,27 +329,25 @@ func main() {
 			problems = append(problems, "type info differs: "+strings.Join(diffs, " | "))
 		}
 		// skipping nodes must not change the type info of the nodes still visited
-		sr := hx.NewRng(c.SkipSeed)
-		decided := map[string]bool{}
-		skipped := 0
-		skip := func(kind string, start int) bool {
-			k := fmt.Sprintf("%s@%d", kind, start)
-			if _, ok := decided[k]; !ok {
-				decided[k] = kind != "OperationDefinition" && kind != "FragmentDefinition" && sr.Chance(1, 6)
-				if decided[k] {
-					skipped++
-				}
-			}
-			return decided[k]
-		}
-		realSkip, _, pan2 := runReal(&b.Schema, doc, skip)
-		if pan2 != "" {
-			problems = append(problems, "real walk with skips panicked: "+pan2)
+		realSkip, skipped := rs.out, len(rs.skipped)
+		if rs.panicked != "" {
+			problems = append(problems, "real walk with skips panicked: "+rs.panicked)
 		}
 		for k, v := range realSkip {
 			if real[k] != v {
 				problems = append(problems, "after skipping nodes the type info differs: "+v+" without skips "+real[k])
 				break
+			}
+		}
+		if len(rs.leaveDiffs) > 0 {
+			problems = append(problems, "with skips, type info at Leave differs from Enter: "+rs.leaveDiffs[0])
+		}
+		if rs.finalState != "" && rs.panicked == "" {
+			problems = append(problems, "after the walk with skips the TypeInfo is not empty again: "+rs.finalState)
+		}
+		if skipped > 0 && rs.panicked == "" {
+			if d := seqDiff("with skips, stack machine M differs from the real TypeInfo", rs.seq, modelSeq(resp.MRecsSkip)); d != "" {
+				problems = append(problems, d)
 			}
 		}
 		if skipped > 0 {
